@@ -223,11 +223,19 @@ Bad(id, rule) ==
                          Shout(id, [k |-> "un", op |-> "not", e |-> Num(1)]), Shout(id, [k |-> "un", op |-> "neg", e |-> StrC(1)]),
                          [k |-> "if", id |-> id, c |-> Num(1), t |-> <<Shout(id + 500, Num(1))>>, f |-> <<>>],
                          Shout(id, Idx(Num(1), Num(0))), Shout(id, Idx(ArrE(<<Num(1)>>), StrC(1))),
+                         \* a process command as a condition / operand
+                         [k |-> "if", id |-> id, c |-> Call("command", <<StrC(1)>>), t |-> <<Shout(id + 500, Num(1))>>, f |-> <<>>],
+                         [k |-> "loop", id |-> id, c |-> Call("command", <<StrC(1)>>), b |-> <<[k |-> "brk", id |-> id + 500]>>],
+                         [k |-> "block", id |-> id, b |-> <<Make(id + 500, "j", Call("command", <<StrC(1)>>)), [k |-> "loop", id |-> id + 501, c |-> Var("j"), b |-> <<[k |-> "brk", id |-> id + 502]>>]>>],
                          \* a same-scope re-declaration changes the variable's static type
                          [k |-> "block", id |-> id, b |-> <<Make(id + 500, "t", Num(1)), Make(id + 501, "t", StrC(1)), Shout(id + 502, Bin("minus", Var("t"), Num(1)))>>],
                          [k |-> "block", id |-> id, b |-> <<Make(id + 500, "t", Num(1)), Make(id + 501, "t", StrC(1)), Shout(id + 502, [k |-> "un", op |-> "neg", e |-> Var("t")])>>]}
+    [] rule = "method" -> {Shout(id, MCall(StrC(1), "push", <<Num(1)>>)), Shout(id, MCall(ArrE(<<Num(1)>>), "trim", <<>>)), Shout(id, MCall(Num(1), "split", <<StrC(1)>>)),
+                           Shout(id, MCall(StrC(1), "abs", <<>>)), Shout(id, MCall(ArrE(<<Num(1)>>), "floor", <<>>)),
+                           [k |-> "block", id |-> id, b |-> <<Make(id + 500, "t", StrC(1)), ExprS(id + 501, MCall(Var("t"), "push", <<Num(1)>>))>>],
+                           [k |-> "block", id |-> id, b |-> <<Make(id + 500, "t", ArrE(<<Num(1)>>)), Shout(id + 501, MCall(Var("t"), "to_uppercase", <<>>))>>]}
     [] OTHER -> {}
-Rules == {"undeclared-variable", "assign-undeclared", "undeclared-function", "arity", "break-outside-loop", "continue-outside-loop",
+Rules == {"method", "undeclared-variable", "assign-undeclared", "undeclared-function", "arity", "break-outside-loop", "continue-outside-loop",
           "return-outside-function", "reserved-name", "type", "duplicate-function", "duplicate-parameter"}
 GenInject ==
   /\ phase = "gen" /\ Has("inject") /\ inj = "none" /\ Room /\ Live
